@@ -424,3 +424,48 @@ def gate_on(ctx, fn: Func, node: Node, pe, gate_atom: str) -> bool:
             # already excluded; an IfExp/default wrapper around the read is fine
             return True
     return False
+
+
+MUTATING_TAILS = {"append", "extend", "add", "update", "setdefault", "insert", "pop", "clear", "popitem", "remove", "discard", "appendleft", "sort", "reverse"}
+
+
+def module_state_writes(ctx, modname: str, ignore: Sequence[str] = ()) -> List[Tuple[Func, ast.AST, str, str]]:
+    """(function, node, name, how) for every write to module-level state from inside a function of the module:
+    `global X` followed by a (re)binding of X, or a mutation of a module-level name bound to a container."""
+    m = ctx.prog.module(modname)
+    containers: Set[str] = set()
+    for st in m.tree.body:
+        if isinstance(st, (ast.Assign, ast.AnnAssign)) and st.value is not None:
+            v = st.value
+            is_c = isinstance(v, (ast.Dict, ast.List, ast.Set, ast.DictComp, ast.ListComp, ast.SetComp, ast.Tuple)) or (
+                isinstance(v, ast.Call) and (dotted(v.func) or "").split(".")[-1] in ("dict", "list", "set", "defaultdict", "OrderedDict", "deque", "Counter"))
+            for t in (st.targets if isinstance(st, ast.Assign) else [st.target]):
+                if isinstance(t, ast.Name) and is_c and not t.id.startswith("__"):
+                    containers.add(t.id)
+    out: List[Tuple[Func, ast.AST, str, str]] = []
+    for fn in m.funcs.values():
+        globs: Set[str] = set()
+        for x in walk_no_defs(fn.node):
+            if isinstance(x, ast.Global):
+                globs.update(x.names)
+        local_store = {y.id for y in walk_no_defs(fn.node) if isinstance(y, ast.Name) and isinstance(y.ctx, ast.Store)} - globs
+        params = set(fn.params)
+        for x in walk_no_defs(fn.node):
+            if isinstance(x, (ast.Assign, ast.AugAssign, ast.AnnAssign)):
+                for t in (x.targets if isinstance(x, ast.Assign) else [x.target]):
+                    for tt in ([t] if not isinstance(t, (ast.Tuple, ast.List)) else t.elts):
+                        if isinstance(tt, ast.Name) and tt.id in globs and tt.id not in ignore:
+                            out.append((fn, x, tt.id, "rebinds (global statement)"))
+                        if isinstance(tt, (ast.Subscript, ast.Attribute)):
+                            root = tt
+                            while isinstance(root, (ast.Subscript, ast.Attribute)):
+                                root = root.value
+                            if isinstance(root, ast.Name) and root.id in containers and root.id not in local_store and root.id not in params and root.id not in ignore:
+                                out.append((fn, x, root.id, "stores into"))
+            if isinstance(x, ast.Call) and isinstance(x.func, ast.Attribute) and x.func.attr in MUTATING_TAILS:
+                root = x.func.value
+                while isinstance(root, (ast.Subscript, ast.Attribute)):
+                    root = root.value
+                if isinstance(root, ast.Name) and root.id in containers and root.id not in local_store and root.id not in params and root.id not in ignore:
+                    out.append((fn, x, root.id, f"mutates (.{x.func.attr})"))
+    return out
